@@ -98,3 +98,17 @@ def generated_parser():
         raise RuntimeError('cannot locate OUT_DIR/aidl.rs')
     _built['debug'] = os.path.join(CACHE, 'target-replay', 'debug', 'vreplay')
     return os.path.join(out, 'aidl.rs')
+
+
+def history(contents, script_lines, extra_files=None, release=False, timeout=600):
+    """contents: {name: text} written into a temp dir; script lines use {name} placeholders for those files."""
+    files = dict(contents)
+    with Project(files) as d:
+        for name, data in (extra_files or {}).items():
+            with open(os.path.join(d, name), 'wb') as f:
+                f.write(data)
+        sp = os.path.join(d, 'script.txt')
+        with open(sp, 'w') as f:
+            for l in script_lines:
+                f.write(l.replace('{dir}', d) + '\n')
+        return run(['history', sp], release, timeout=timeout)
